@@ -292,6 +292,8 @@ def _list(lib, run, recv, args, kw):
             return run.st.alloc(ListO(o.items))
         if isinstance(o, SymListO):
             return run.st.alloc(SymListO(o.length, o.elems, o.ekind))
+        if isinstance(o, MapO):
+            return SeqV('A', o.keys, True)         # list(d): the keys in insertion order
     if isinstance(v, Lazy) and v.kind == 'chain':
         return v.payload
     if isinstance(v, Lazy) and v.kind == 'set':
@@ -302,6 +304,14 @@ def _list(lib, run, recv, args, kw):
             # list(set(indices)): the same members, each once, in an order that is a function of the set (A6)
             from .specfns import idedup
             return SeqV('I', idedup(sv.term), True)
+    if isinstance(v, Lazy) and v.kind == 'dictview':
+        from .loops import domain_of
+        dom = domain_of(run, v)
+        if dom.canon is not None:
+            c = dom.canon
+            return SeqV(c.kind, c.term, True) if isinstance(c, SeqV) else c      # list(d.values()) of a real-valued dict
+        if v.payload[0] == 'keys' and dom.arm_seq is not None:
+            return SeqV('A', dom.arm_seq, True)
     if isinstance(v, Lazy) and v.kind == 'range':
         # list(range(lo, hi)): the same value as the comprehension [x for x in range(lo, hi)]
         from .loops import domain_of, summarise
